@@ -53,7 +53,7 @@ def generate(rng, idx, tier, variant):
     spec = {'span': sp, 'subs': subs, 'dtype': rng.choice(['float'] * 6 + ['float32', 'int']), 'own': {'endo': ['L0'], 'exo': ['LX'], 'check': own_check}, 'init': {'L0': [rng.choice(S.DYADS) for _ in range(n)], 'LX': [rng.choice(S.DYADS) for _ in range(n)]}}
     ops = []
     if rng.random() < 0.12 and n_sub >= 2:
-        ops.append({'op': 'construct-unequal-spans', 'which': rng.choice(pool[1:n_sub]), 'how': rng.choice(['longer', 'shifted', 'other-labels', 'permuted', 'repeated', 'array-partial', 'array-partial'])})
+        ops.append({'op': 'construct-unequal-spans', 'which': rng.choice(pool[1:n_sub]), 'how': rng.choice(['longer', 'shifted', 'other-labels', 'permuted', 'repeated', 'interior', 'interior', 'array-partial', 'array-partial'])})
     for _ in range(rng.choice([1, 1, 2, 3])):
         opts = S.gen_opts(rng, False)
         opts['errors'] = 'raise'
@@ -392,15 +392,21 @@ def execute(schedule, ctx):
             elif op['how'] == 'other-labels':
                 sp2['type'] = 'list_str' if sp2['type'] != 'list_str' else 'list_int'
             other_span = spans.make_span(sp2)
-            if op['how'] not in ('permuted', 'repeated', 'array-partial') and spans.describe(other_span) == spans.describe(spans.make_span(spec['span'])):
+            if op['how'] not in ('permuted', 'repeated', 'interior', 'array-partial') and spans.describe(other_span) == spans.describe(spans.make_span(spec['span'])):
                 continue  # (the 'other' span came out equal to the linker's: nothing to reject)
-            if op['how'] in ('permuted', 'repeated'):
-                # same length, same labels - in another order, or with one label repeated
+            if op['how'] in ('permuted', 'repeated', 'interior'):
+                # same length, same labels - in another order, or with one label repeated ('interior': same first and last
+                # label too, the difference lies strictly between them)
                 items = spans.elements(spans.make_span(spec['span']))
-                if len(items) < 2:
+                if len(items) < (3 if op['how'] == 'interior' else 2):
                     continue
                 if op['how'] == 'permuted':
                     items[0], items[-1] = items[-1], items[0]
+                elif op['how'] == 'interior':
+                    if len(items) >= 4:
+                        items[1], items[-2] = items[-2], items[1]
+                    else:
+                        items[1] = items[0]
                 else:
                     items[-1] = items[0]
                 other_span = list(items) if sp2['type'] != 'range' else list(items)
